@@ -430,6 +430,21 @@ theorem batch_stale_alive_asWritten :
   decide
 
 open BatchWitness in
+/-- the hypothesis of `batch_routing_eq_pointwise` is needed: with overlapping live groups (what
+a change of the shard-group duration leaves behind, C16 finding `group_after_duration_change`)
+the batch keeps the cached group where a row written on its own takes the last group that
+contains its timestamp — both are groups containing the timestamp (`batch_routing_in_group`),
+and the reader consults both. -/
+theorem batch_group_follows_cache_when_overlapping :
+    let gOv : Group := ⟨3, 50, 150, false, none, [sh 30, sh 31], [0, 1], none⟩
+    let C : Catalogue := ⟨none, [cpu], [g1, gOv]⟩
+    let b := [row "cpu" 10 [("host", "a")], row "cpu" 60 [("host", "a")]]
+    ids (routeBatch true true hashW C b) = [some 10, some 10] ∧
+    ids (pointwise hashW C b) = [some 10, some 30] ∧ ¬ GroupsDisjoint C.groups := by
+  refine ⟨by decide, by decide, ?_⟩
+  simp [GroupsDisjoint, g1]
+
+open BatchWitness in
 /-- non-vacuity: a batch over two measurements and two groups with a shard key that changes
 with the group satisfies the hypotheses of `batch_routing_eq_pointwise`, every row is routed, the
 rows are spread over four shards, and each is where its own shard key puts it. -/
